@@ -32,6 +32,23 @@ def assigned_names(stmts, mutating_methods=()):
     return out, yields
 
 
+class _SetKeysTy:
+    """adapter: a set seen as the key set of a dict (loop machinery for `for k in some_set`)"""
+    def __init__(self, st):
+        self.k, self.v, self._st = st.elem, st.elem, st
+
+    def has(self, t):
+        return t
+
+    def at(self, t):
+        return z3.K(self.k.sort(), z3.Const('dummy!setiter', self.k.sort()))
+
+
+class _SetAsKeys:
+    def __init__(self, v):
+        self.t, self.ty = v.t, _SetKeysTy(v.ty)
+
+
 class Executor(Engine):
     sigs = {}
     side_n = 0
@@ -165,7 +182,13 @@ class Executor(Engine):
                 terms = [coerce(val, fty).t if f == tgt.attr else rt.get(f, base.t) for f, fty in rt.fields.items()]
                 st.env[name] = V(rt, rt.mk(*terms))
                 return st
-            raise OutOfSubset(f'attribute store {ast.unparse(tgt)} at line {line} (property setters are not modelled)')
+            q = self.method_qual(base.ty, tgt.attr + '.setter') if isinstance(base.ty, TRec) else None
+            if q:
+                # `x.prop = v` on a property: a call of the setter, checked against the setter's contract (which mutates x)
+                ctx = self.new_ctx(st, line)
+                self.call_bound(q, [('self', base)], [val], {}, ctx, line, writeback={'self': name})
+                return self.commit(st, ctx, results)
+            raise OutOfSubset(f'attribute store {ast.unparse(tgt)} at line {line} (no field and no setter contract)')
         if isinstance(tgt, ast.Subscript) and isinstance(tgt.value, ast.Name) and isinstance(tgt.slice, ast.Slice):
             name = tgt.value.id
             base = st.env[name]
@@ -512,6 +535,9 @@ class Executor(Engine):
                 kind = 'bag'
             elif isinstance(src.ty, TDict):
                 kind = 'dict'
+            elif isinstance(src.ty, TSet):
+                kind = 'dict'      # iteration over a set: every member exactly once, order abstracted (as dict keys)
+                src = _SetAsKeys(src)
             else:
                 raise OutOfSubset(f'for over {src.ty} at line {node.lineno}')
             data = dict(src=src, enum=enum, start=start, mode='keys')
@@ -715,6 +741,20 @@ class Executor(Engine):
         return self.path_count
 
     # ------------------------------------------------------------------ whole function
+    def generate_lemmas(self, modname, lemmas):
+        """LEMMAS of a contract module: statements over the CONTRACTS alone (laws that must follow from the postconditions, e.g.
+        symmetry of an equality).  No code is read: a lemma fails only if a contract it mentions no longer carries it."""
+        self.cur = None
+        n0 = len(self.obls)
+        pc = []
+        for lab, text in _labelled(self.axioms):
+            g, a = self.spec_bool(text, {}, old={}, ghosts={})
+            pc += a + [g]
+        for lab, text in _labelled(lemmas):
+            g, a = self.spec_bool(text, {}, old={}, ghosts={})
+            self.obls.append(Obligation(f'lemmas.{modname}#lemma[{lab}]', pc + a, g, 'lemma', 0, f'lemmas:{modname}'))
+        return self.obls[n0:]
+
     def generate(self, qual, fnode, canaries=True):
         """VCs of one real function (ast.FunctionDef) against its contract"""
         c = self.contracts[qual]
@@ -963,7 +1003,11 @@ def make_engine(modname, repo=None):
     eng.funcs = getattr(m, 'FUNCS', {})
     eng.axioms = getattr(m, 'AXIOMS', [])
     eng.sigs = {}
+    eng.lemmas = getattr(m, 'LEMMAS', [])
     nodes, shas, errors = {}, {}, []
+    if eng.lemmas:
+        import hashlib
+        shas['lemmas:' + modname] = hashlib.sha256(open(m.__file__, 'rb').read()).hexdigest()
     for q, c in cons.items():
         if c.d.get('external'):
             continue
